@@ -355,7 +355,7 @@ func nwkName(r *core.Rng) string {
 	case 2:
 		return "''"
 	case 3:
-		return core.Pick(r, []string{"a[b]", "[x]", "n[1", "]", "p[&&NHX:S=1]q"}) // brackets are ordinary name bytes
+		return core.Pick(r, []string{"a[b]", "[x]", "n[1", "]", "p[&&NHX=1]q"}) // brackets are ordinary name bytes
 	default:
 		return string(r.Bytes(r.Range(1, 6), "abcXYZ019_.-|"))
 	}
